@@ -103,6 +103,9 @@ func runC14(rep *TReport, raw json.RawMessage) {
 			s.Headers.Extra = map[string]interface{}{"alg": r.Alg} // the application names the algorithm of its key
 		}
 		if r.SessionAud {
+			// ... and custom claims that are named like registered ones (an identity broker copying an upstream ID token):
+			// they never stand in for the claims this server computes
+			s.Claims.Extra = map[string]interface{}{"nonce": "nonce-from-session-extra", "at_hash": "at-hash-from-extra", "c_hash": "c-hash-from-extra", "custom": "kept"}
 			s.Claims.Audience = []string{"https://api.example.org"}
 		}
 		switch r.Preset {
